@@ -140,6 +140,7 @@ def run(F, rep):
 
     # ------------------------------------------------------------ A-VAR
     _varint(F, rep)
+    _count_bounds(F, rep)
 
     # ------------------------------------------------------------ A-EMPTY
     rp = fn("read_part_data")
@@ -707,3 +708,56 @@ def _varint_sinks(F, rep, w, r):
     rep.floor("C13-VAR", nsink, 6, "write_varint call sites")
     sig = r.d.get("sig", "") + w.d.get("sig", "")
     rep.ob("C13-VAR", "both sides use u64", "u64" in w.d.get("sig", "") and "(u64, usize)" in r.d.get("sig", ""), how="trivial", key="C13-VAR | u64")
+
+
+def _count_bounds(F, rep):
+    """A reader may refuse a count that cannot fit in what is left of the directory, but only with the right divisor:
+    `count > remaining / c` (or `count * c > remaining`) in front of a loop that runs `count` times is sound iff every
+    iteration consumes at least c bytes.  The minimum is computed from the loop body: each integer read takes >= 1 byte
+    (the value 0 is the single byte 0 - C13-VAR), each read_exact(n) takes n.  A larger c rejects directories the
+    writer produces (e.g. streams of empty parts)."""
+    d = F.funcs.get(ARCH + "deserialize")
+    if d is None:
+        return
+    ex = Exprs(d)
+    g = cfg_of(d)
+    loops = for_loops(d, ex)
+    n = 0
+    for bi, b in enumerate(d.blocks):
+        t = b["term"]
+        if t["k"] != "switch" or b["cleanup"]:
+            continue
+        ce = strip_tags(ex.operand(t["discr"]))
+        # Lt(Div(R, c), N)  i.e.  N > R / c      or  Lt(R, Mul(N, c))
+        m = None
+        if isinstance(ce, tuple) and ce[0] == "bin" and ce[1] in ("Lt", "Le"):
+            a, bb = ce[2], ce[3]
+            if isinstance(a, tuple) and a[0] == "bin" and a[1] == "Div" and a[3][0] == "const":
+                m = (bb, a[3][1], a[2])
+            elif isinstance(bb, tuple) and bb[0] == "bin" and bb[1] == "Mul" and ("const" in (bb[2][0], bb[3][0])):
+                c = bb[2][1] if bb[2][0] == "const" else bb[3][1]
+                cnt = bb[3] if bb[2][0] == "const" else bb[2]
+                m = (cnt, c, a)
+        if m is None:
+            continue
+        cnt, c, rem = m
+        if not contains(cnt, lambda x: isinstance(x, tuple) and x[0] == "call" and x[1].endswith("varint::read_varint")):
+            continue
+        # the loop whose trip count is that value
+        L = [l for l in loops if l.get("range") and strip_tags(l["range"][1]) == cnt or (l.get("range") and fmt(strip_tags(l["range"][1])) == fmt(cnt))]
+        if not L:
+            continue
+        L = L[0]
+        per_iter = 0
+        tails = [x for x in L["body"] if L["head"] in g.succ[x]]
+        for x in sorted(L["body"]):
+            tx = d.blocks[x]["term"]
+            if tx["k"] == "call" and not tx.get("indirect") and all(g.dominates(x, tl) for tl in tails):
+                if tx["callee"].endswith("varint::read_varint"):
+                    per_iter += 1
+        n += 1
+        rep.ob("C13-FOOT", "the reader's bound on a count from the directory (%s > remaining / %d) does not exceed what the writer produces: every entry takes at least %d byte(s)" % (fmt(cnt)[:40], c, per_iter),
+               c <= per_iter, detail="divisor %d, minimum bytes per loop iteration %d (each integer read >= 1 byte: the value 0 is one byte)%s" % (
+                   c, per_iter, "" if c <= per_iter else "; directories with entries shorter than %d bytes (parts of size 0 at small offsets) are rejected although the writer produced them" % c),
+               site=site_of(d, t), key="C13-FOOT | deserialize | count bound divisor")
+    rep.stat("count_bounds_in_directory_reader", n)
